@@ -85,6 +85,8 @@ def over_limit_text(ctx, t, rng):
     if type(t) is T.String and t.length is not None:
         n = t.length
         v = rng.random()
+        if v > 0.85:                # decomposed sequences: the limit counts code points of the VALUE (2n here), whatever they would compose to
+            return ("over-long", "e\u0301" * n, "y" * n)
         if n >= 3 and v < 0.3:      # a bare ampersand in the value (no entity: the value is the text)
             return ("over-long", "R&D" + "x" * (n - 2), "R&D" + "y" * (n - 3))
         if n >= 2 and v < 0.6:      # an entity: the VALUE is one character per entity; at the limit the raw text is longer than n
@@ -250,6 +252,8 @@ def kw_mutants(ctx, cls, args, kw, rng):
                 v = H.gen_instance(ctx, t.__type__, rng, 1, 0.2) if isinstance(t, T.SubAggregate) else H.gen_value(ctx, t, rng)
                 if v is None: continue
                 m = dict(kw); m[other] = v; out.append(("two-of-group", "reject", args, m))
+                if type(spec[have[0]]) in (T.String, T.NagString):      # a member that is blank text is still a member (only "" converts to None)
+                    m = dict(kw); m[other] = v; m[have[0]] = rng.choice([" ", "\t", "\u00a0", "\u3000", " \n "]); out.append(("two-of-group-one-blank", "reject", args, m))
                 if kind == "req":
                     m = dict(kw); del m[have[0]]; out.append(("none-of-required-group", "reject", args, m))
                     # fixed finding (2370ade): the keyword route counted "" as a present member, which then converts to None
